@@ -233,4 +233,85 @@ theorem tradesFor_frac_any (w : World K) (b : Broker K) (nlv : K) (r : Rebal K) 
             have hq' : kv.2.getD 0 = t.qty := by simpa using hq
             simp [List.filter_cons, hsk, ih ts' hr, hk, hq']
 
+/-- the quantity `make_trades` asks for: the imbalance itself, or its whole-lot part -/
+def askedQty (r : Rebal K) (kv : Key × Option K) : K :=
+  if r.fractional then kv.2.getD 0 else HasTrunc.trunc (kv.2.getD 0)
+
+/-- is a trade emitted for this imbalanced contract? not when the whole-lot part is zero, not when the weight
+    of the imbalance is below the threshold and the contract is part of the target -/
+def emitted (w : World K) (b : Broker K) (nlv : K) (r : Rebal K) (alloc : List (Key × K)) (kv : Key × Option K) : Bool :=
+  !(!r.fractional && decide (askedQty r kv = 0)) && !skipped w b nlv r alloc kv
+
+theorem tradeFor_any (w : World K) (b : Broker K) (nlv : K) (r : Rebal K) (alloc : List (Key × K))
+    (kv : Key × Option K) :
+    tradeFor w b nlv r alloc kv.1 (kv.2.getD 0) =
+      if emitted w b nlv r alloc kv then
+        (mkTrade w kv.1 (some (askedQty r kv)) (b.ex.books kv.1).bid (b.ex.books kv.1).ask).map some
+      else .ok none := by
+  unfold tradeFor emitted skipped askedQty
+  by_cases hf : r.fractional = true
+  · simp only [hf, if_true, Bool.not_true, Bool.false_and, Bool.false_eq_true, if_false, Bool.not_false,
+      Bool.true_and]
+    cases (b.ex.books kv.1).acq (sgn (kv.2.getD 0)) with
+    | none => simp
+    | some p => simp only; split_ifs <;> simp_all
+  · have hf' : r.fractional = false := by simpa using hf
+    simp only [hf', Bool.false_eq_true, if_false, Bool.not_false, Bool.true_and]
+    by_cases h0 : HasTrunc.trunc (kv.2.getD 0) = (0 : K)
+    · simp [h0]
+    · simp only [h0, decide_false, Bool.false_eq_true, if_false, Bool.not_false, Bool.true_and]
+      cases (b.ex.books kv.1).acq (sgn (kv.2.getD 0)) with
+      | none => simp
+      | some p => simp only; split_ifs <;> simp_all
+
+/-- **The trade list of a rebalance, exactly**: one trade per emitted imbalance entry, in order, for the asked
+    quantity (any threshold, fractional or whole lots) -/
+theorem tradesFor_any (w : World K) (b : Broker K) (nlv : K) (r : Rebal K) (alloc : List (Key × K))
+    (imb : List (Key × Option K)) (ts : List (Trade K)) (h : tradesFor w b nlv r alloc imb = .ok ts) :
+    ts.map (fun t => (t.key, t.qty)) =
+      (imb.filter fun kv => emitted w b nlv r alloc kv).map (fun kv => (kv.1, askedQty r kv)) := by
+  induction imb generalizing ts with
+  | nil =>
+      simp only [tradesFor, Except.ok.injEq] at h
+      subst h; rfl
+  | cons kv rest ih =>
+      rw [tradesFor, tradeFor_any w b nlv r alloc kv] at h
+      by_cases hem : emitted w b nlv r alloc kv = true
+      · simp only [hem, if_true] at h
+        cases hmk : mkTrade w kv.1 (some (askedQty r kv)) (b.ex.books kv.1).bid (b.ex.books kv.1).ask with
+        | error e => rw [hmk] at h; simp [Except.map] at h
+        | ok t =>
+          rw [hmk] at h
+          simp only [Except.map] at h
+          cases hr : tradesFor w b nlv r alloc rest with
+          | error e => rw [hr] at h; simp at h
+          | ok ts' =>
+            rw [hr] at h
+            simp only [Except.ok.injEq] at h
+            subst h
+            obtain ⟨hk, hq, _, _⟩ := mkTrade_fields w _ _ _ _ t hmk
+            have hq' : askedQty r kv = t.qty := by simpa using hq
+            simp [List.filter_cons, hem, ih ts' hr, hk, hq']
+      · simp only [hem, Bool.false_eq_true, if_false] at h
+        cases hr : tradesFor w b nlv r alloc rest with
+        | error e => rw [hr] at h; simp at h
+        | ok ts' =>
+          rw [hr] at h
+          simp only [Except.ok.injEq] at h
+          subst h
+          rw [ih ts' hr]
+          simp [List.filter_cons, hem]
+
+/-- the keys of a cleaned target are among the resolved keys, without repetition when those are distinct -/
+theorem cleanAlloc_zip_keys (w : World K) (ks : List Key) (v : List K) :
+    ((cleanAlloc w (ks.zip v)).map (·.1)).Sublist ks := by
+  unfold cleanAlloc
+  refine (List.filter_sublist.map _).trans ?_
+  induction ks generalizing v with
+  | nil => simp
+  | cons k ks ih =>
+      cases v with
+      | nil => simp
+      | cons x xs => simp only [List.zip_cons_cons, List.map_cons]; exact (ih xs).cons₂ k
+
 end TV
